@@ -104,12 +104,12 @@ func c04backlog(w *W) {
 	registerMonitorPlugins()
 	perItem := time.Duration(w.ArgInt("delay_us", 5000)) * time.Microsecond
 	n := int(w.Spec.N)
-	for _, policy := range []string{"Block", "DiscardOldest"} {
+	for _, policy := range []string{w.Arg("policy", "Block")} {
 		asyncSeq++
 		sinkName := fmt.Sprintf("bl%d", asyncSeq)
 		ap := &VSlow{AppenderBase: log.AppenderBase{Name: sinkName}, DelayUS: int(perItem / time.Microsecond)}
 		all := log.LevelRange{MinLevel: log.NoneLevel, MaxLevel: log.MaxLevel}
-		pol := map[string]log.BufferFullPolicy{"Block": log.BufferFullPolicyBlock, "DiscardOldest": log.BufferFullPolicyDiscardOldest}[policy]
+		pol := map[string]log.BufferFullPolicy{"Block": log.BufferFullPolicyBlock, "DiscardOldest": log.BufferFullPolicyDiscardOldest, "Discard": log.BufferFullPolicyDiscard}[policy]
 		l := &log.AsyncLogger{LoggerBase: log.LoggerBase{Name: "backlog", Level: all}, BufferSize: n + 100, BufferFullPolicy: pol,
 			AppenderRefs: log.AppenderRefs{AppenderRefs: []*log.AppenderRef{{Appender: ap, Level: all}}}}
 		if err := l.Start(); err != nil {
@@ -368,7 +368,7 @@ func init() {
 	register(&Prop{
 		ID: "C04", Level: "exploration", MinDistinct: 30, Worker: c04Worker,
 		Rule: "runs: AsyncLogger built directly (exported fields) or through Refresh, policy cycling over Block/Discard/DiscardOldest, buffer size in {100,101,128,1000}, 1-32 producers, appender fast/slow(60us)/gated-for-the-first-phase, with/without a logger-level layout, item mix of enabled events (3 levels), disabled-level events and raw writes, each item with a unique (producer,seq) id; producers are joined before Stop; " +
-			"yield points between enqueue/drop/worker steps are perturbed by a seeded callback. Oracle after Stop returned: delivered + discard counter = submitted at an enabled level, every delivered id submitted exactly once, nothing below the level delivered, Block => counter 0 and everything delivered. The same runs are repeated in a -race build; one further run leaves a backlog of several seconds behind a 5 ms/item appender at the moment of Stop (Stop must wait for all of it). " +
+			"yield points between enqueue/drop/worker steps are perturbed by a seeded callback. Oracle after Stop returned: delivered + discard counter = submitted at an enabled level, every delivered id submitted exactly once, nothing below the level delivered, Block => counter 0 and everything delivered. The same runs are repeated in a -race build; three further runs (one per policy) leave a backlog of 6.5 s (thorough: 30 s) behind a 5 ms/item appender at the moment of Stop (Stop must wait for all of it). " +
 			"Non-trivial/distinct = distinct (policy, buffer, producers, appender, layout, construction, drops occurred) classes among runs whose counts were exact.",
 		Assumptions: []string{"items racing with Stop are excluded by the statement: producers are joined first", "schedules are those produced by the scheduler plus seeded yields (hit counts reported)"},
 		Run: func(d *D) {
@@ -387,10 +387,13 @@ func init() {
 				specs = append(specs, s)
 			}
 			// a backlog of several seconds at the moment of Stop (quick: 2 x ~3 s, thorough: 2 x ~20 s)
-			b := d.NewSpec("backlog", "backlog", 200, 16)
-			b.N = d.Pick(600, 4000)
-			b.TimeoutS = 900
-			specs = append(specs, b)
+			for i, pol := range []string{"Block", "DiscardOldest", "Discard"} {
+				b := d.NewSpec("backlog", "backlog-"+pol, 200+i, 16)
+				b.N = d.Pick(1300, 6000) // x 5 ms per item: 6.5 s / 30 s of queued work when Stop is called
+				b.Args["policy"] = pol
+				b.TimeoutS = 900
+				specs = append(specs, b)
+			}
 			outs := d.RunWorkers(specs, 16)
 			d.raceVerdict(outs)
 		},
